@@ -16,8 +16,10 @@ theorem inv_hostsGone (c : Cfg) (ar aq : Nat) (s : S) (h : Inv c ar aq s) :
 theorem inv_dsOnResetStream (c : Cfg) (ar aq : Nat) (s : S) (r : Reason) (dl : Bool)
     (h : Inv c ar aq s) : Inv c ar aq (dsOnResetStream { s with downLive := dl } r) := by
   obtain ⟨k0, k1, k2, k3, k4, k5, k6, k7, k8, k9, k10, k11, k12, k13, k14, k15, k16, k17, k18, k19, k20, k21, k22, k23, k24, k25, k26, k27, k28, k29, k30, k31, k32, k33⟩ := h
-  refine ⟨k0, k1, k2, k3, k4, k5, ?_, k7, k8, k9, k10, k11, k12, k13, k14, k15, k16, k17, ?_, k19, k20, k21, k22, k23, k24, k25, k26, k27, ?_, k29, k30, k31, k32, ?_⟩
+  refine ⟨k0, k1, k2, k3, k4, k5, ?_, ?_, k8, k9, k10, k11, k12, k13, k14, k15, k16, k17, ?_, k19, k20, k21, k22, k23, k24, k25, k26, k27, ?_, k29, k30, k31, k32, ?_⟩
   · simp [K6, dsOnResetStream]
+  · simp only [K7, Term, dsOnResetStream] at k7 ⊢
+    grind
   · simp only [K18, dsOnResetStream] at k18 ⊢
     grind
   · simp only [K28, dsOnResetStream] at k28 ⊢
@@ -104,6 +106,11 @@ theorem inv_reset_destroy (c : Cfg) (ar aq : Nat) (s : S) (k : Nat) (r : Reason)
     cases fire
     · exact h.k22
     · exact h.k22
+  have hnd : s.direct = false := not_direct_of_live h.k7 hcl (liveCounted_pos s k hlc)
+  have h7' : K7 (destroyStream c (if fire then upOnResetStream s r else s) k) := by
+    apply k7_intro
+    · cases fire <;> simp [upOnResetStream, hsr]
+    · cases fire <;> simp [upOnResetStream, hnd]
   obtain ⟨k0, k1, k2, k3, k4, k5, k6, k7, k8, k9, k10, k11, k12, k13, k14, k15, k16, k17, k18, k19, k20, k21, k22, k23, k24, k25, k26, k27, k28, k29, k30, k31, k32, k33⟩ := h
   have hnr : s.phase ≠ .Retry := by
     intro hp
@@ -121,7 +128,7 @@ theorem inv_reset_destroy (c : Cfg) (ar aq : Nat) (s : S) (k : Nat) (r : Reason)
     · exact absurd hp hn30
     · exact absurd hp hn30
   cases fire
-  · refine ⟨k0, k1, k2, k3, k4, k5, k6, k7, k8, k9, hd.1, hd.2.1, k12, ?_, hd.2.2, ?_, k16, ?_, k18, k19, ?_, k21, h22, h23, k24, k25, k26, ?_, k28, k29, h30, k31, k32, (fun hh => absurd hh (by simp [hcl]))⟩
+  · refine ⟨k0, k1, k2, k3, k4, k5, k6, h7', k8, k9, hd.1, hd.2.1, k12, ?_, hd.2.2, ?_, k16, ?_, k18, k19, ?_, k21, h22, h23, k24, k25, k26, ?_, k28, k29, h30, k31, k32, (fun hh => absurd hh (by simp [hcl]))⟩
     · intro hh; exact absurd hh (by simp [hcl])
     · intro _ hh; exact absurd hh (by simp [hup])
     · intro _ hh; exact absurd hh (by simp [hpre])
@@ -131,7 +138,7 @@ theorem inv_reset_destroy (c : Cfg) (ar aq : Nat) (s : S) (k : Nat) (r : Reason)
       rcases this with h | ⟨_, h⟩
       · left; exact h
       · omega
-  · refine ⟨k0, k1, k2, k3, k4, k5, k6, k7, k8, k9, hd.1, hd.2.1, k12, ?_, hd.2.2, ?_, k16, ?_, ?_, k19, ?_, k21, h22, h23, k24, k25, ?_, ?_, ?_, k29, h30, k31, k32, (fun hh => absurd hh (by simp [upOnResetStream, hcl]))⟩
+  · refine ⟨k0, k1, k2, k3, k4, k5, k6, h7', k8, k9, hd.1, hd.2.1, k12, ?_, hd.2.2, ?_, k16, ?_, ?_, k19, ?_, k21, h22, h23, k24, k25, ?_, ?_, ?_, k29, h30, k31, k32, (fun hh => absurd hh (by simp [upOnResetStream, hcl]))⟩
     · intro hh; exact absurd hh (by simp [upOnResetStream, hcl])
     · intro _ hh; exact absurd hh (by simp [upOnResetStream, hup])
     · intro _ hh; exact absurd hh (by simp [upOnResetStream, hpre])
@@ -176,8 +183,9 @@ theorem inv_upResp (c : Cfg) (ar aq : Nat) (s : S) (k code : Nat) (d t : Bool) (
       have hd := hdd.1
       have hdead := hdd.2 (streamLiveCounted_le s k hlc)
       have h22 := K22_destroyStream c s k h.k22
+      have hnd : s.direct = false := not_direct_of_live h.k7 hcl (liveCounted_pos s k hlc)
       obtain ⟨k0, k1, k2, k3, k4, k5, k6, k7, k8, k9, k10, k11, k12, k13, k14, k15, k16, k17, k18, k19, k20, k21, k22, k23, k24, k25, k26, k27, k28, k29, k30, k31, k32, k33⟩ := h
-      refine ⟨k0, k1, k2, k3, k4, k5, k6, k7, k8, k9, hd.1, hd.2.1, k12, ?_, hd.2.2, ?_, k16, ?_, ?_, k19, ?_, k21, h22,
+      refine ⟨k0, k1, k2, k3, k4, k5, k6, k7_intro (by simp [hsr]) (by simp [hnd]), k8, k9, hd.1, hd.2.1, k12, ?_, hd.2.2, ?_, k16, ?_, ?_, k19, ?_, k21, h22,
         fun _ _ => allDead_liveCount hdead, k24, k25, ?_, ?_, ?_, k29, ?_, k31, k32, (fun hh => absurd hh (by simp [hcl]))⟩
       · intro hh; exact absurd hh (by simp [hcl])
       · intro _ hh; exact absurd hh (by simp [hup])
@@ -253,7 +261,8 @@ theorem inv_perTryFire (c : Cfg) (ar aq : Nat) (s : S) (h : Inv c ar aq s) : Inv
     · split
       · -- CAS lost
         obtain ⟨k0, k1, k2, k3, k4, k5, k6, k7, k8, k9, k10, k11, k12, k13, k14, k15, k16, k17, k18, k19, k20, k21, k22, k23, k24, k25, k26, k27, k28, k29, k30, k31, k32, k33⟩ := h
-        refine ⟨k0, k1, k2, k3, k4, k5, k6, k7, k8, k9, k10, k11, k12, ?_, k14, ?_, k16, ?_, k18, k19, k20, ?_, k22, k23, k24, k25, ?_, k27, k28, k29, ?_, k31, k32, k33⟩
+        refine ⟨k0, k1, k2, k3, k4, k5, k6, ?_, k8, k9, k10, k11, k12, ?_, k14, ?_, k16, ?_, k18, k19, k20, ?_, k22, k23, k24, k25, ?_, k27, k28, k29, ?_, k31, k32, k33⟩
+        · simp only [K7, Term] at k7 ⊢; grind
         · simp only [K13] at k13 ⊢; grind
         · simp only [K15] at k15 ⊢; grind
         · simp only [K17] at k17 ⊢; grind
@@ -263,6 +272,7 @@ theorem inv_perTryFire (c : Cfg) (ar aq : Nat) (s : S) (h : Inv c ar aq s) : Inv
       · rename_i hurr
         simp only [Bool.not_eq_true] at hurr
         obtain ⟨hcl, how, hfwd, hpre, hup, hsr, hrs⟩ := timer_facts c ar aq s h (Or.inl hpt) hurr
+        have hnd : s.direct = false := not_direct_of_timer h.k7 hcl (Or.inl hpt)
         have hled := resetUpstream_ledger c aq { s with perTry := false, urr := true } ⟨h.k10, h.k11, h.k14⟩
         have h18 := h.k18 hcl hfwd
         obtain ⟨k0, k1, k2, k3, k4, k5, k6, k7, k8, k9, k10, k11, k12, k13, k14, k15, k16, k17, k18, k19, k20, k21, k22, k23, k24, k25, k26, k27, k28, k29, k30, k31, k32, k33⟩ := h
@@ -278,7 +288,7 @@ theorem inv_perTryFire (c : Cfg) (ar aq : Nat) (s : S) (h : Inv c ar aq s) : Inv
         · simpa [K4, upOnResetStream, orFlag] using k4
         · simpa [K5, upOnResetStream, orFlag] using k5
         · simpa [K6, upOnResetStream, orFlag] using k6
-        · simpa [K7, upOnResetStream, orFlag] using k7
+        · exact k7_intro (by simp [upOnResetStream, orFlag, hsr]) (by simp [upOnResetStream, orFlag, hnd])
         · simpa [K8, upOnResetStream, orFlag] using k8
         · simpa [K9, upOnResetStream, orFlag, heldRetry, rsHeld] using k9
         · simpa [K12, upOnResetStream, orFlag] using k12
@@ -332,7 +342,8 @@ theorem inv_globalFire (c : Cfg) (ar aq : Nat) (s : S) (h : Inv c ar aq s) : Inv
         · -- CAS lost: only the timer flag and the expiry record change
           rename_i hurr
           obtain ⟨k0, k1, k2, k3, k4, k5, k6, k7, k8, k9, k10, k11, k12, k13, k14, k15, k16, k17, k18, k19, k20, k21, k22, k23, k24, k25, k26, k27, k28, k29, k30, k31, k32, k33⟩ := h
-          refine ⟨k0, k1, k2, k3, k4, k5, k6, k7, k8, k9, k10, k11, k12, ?_, k14, ?_, k16, ?_, ?_, k19, k20, ?_, k22, k23, ?_, k25, ?_, k27, k28, k29, ?_, k31, k32, k33⟩
+          refine ⟨k0, k1, k2, k3, k4, k5, k6, ?_, k8, k9, k10, k11, k12, ?_, k14, ?_, k16, ?_, ?_, k19, k20, ?_, k22, k23, ?_, k25, ?_, k27, k28, k29, ?_, k31, k32, k33⟩
+          · simp only [K7, Term] at k7 ⊢; grind
           · simp only [K13] at k13 ⊢; grind
           · simp only [K15] at k15 ⊢; grind
           · simp only [K17] at k17 ⊢; grind
@@ -346,6 +357,7 @@ theorem inv_globalFire (c : Cfg) (ar aq : Nat) (s : S) (h : Inv c ar aq s) : Inv
         · rename_i hurr
           simp only [Bool.not_eq_true] at hurr
           obtain ⟨hcl, how, hfwd, hpre, hup, hsr, hrs⟩ := timer_facts c ar aq s h (Or.inr hgt) hurr
+          have hnd : s.direct = false := not_direct_of_timer h.k7 hcl (Or.inr hgt)
           have h18 := h.k18 hcl hfwd
           simp only [how, Bool.false_eq_true, false_and, false_or] at h18
           have hupsome : s.up.isSome = true := h18.1
@@ -361,7 +373,7 @@ theorem inv_globalFire (c : Cfg) (ar aq : Nat) (s : S) (h : Inv c ar aq s) : Inv
           · simpa [K4, upOnResetStream] using k4
           · simpa [K5, upOnResetStream] using k5
           · simpa [K6, upOnResetStream] using k6
-          · simpa [K7, upOnResetStream] using k7
+          · exact k7_intro (by simp [upOnResetStream, hsr]) (by simp [upOnResetStream, hnd])
           · simpa [K8, upOnResetStream] using k8
           · simpa [K9, upOnResetStream, heldRetry, rsHeld] using k9
           · simpa [K12, upOnResetStream] using k12
@@ -393,6 +405,81 @@ theorem inv_globalFire (c : Cfg) (ar aq : Nat) (s : S) (h : Inv c ar aq s) : Inv
           · simpa [K32, upOnResetStream] using k32
           · intro hh; exact absurd hh (by simp [upOnResetStream, hcl])
 
+/-- an accepted asynchronous `TerminateStream` on a parked worker -/
+theorem inv_terminate (c : Cfg) (ar aq : Nat) (s : S) (code : Nat) (h : Inv c ar aq s) :
+    Inv c ar aq (terminateL c s code) := by
+  unfold terminateL
+  split
+  · exact h
+  split
+  · exact h
+  split
+  · exact h
+  split
+  · exact h
+  rename_i hpk hresp hcl hurr
+  simp only [parked, Bool.not_eq_true', Bool.not_eq_false, Bool.and_eq_true, beq_iff_eq] at hpk
+  obtain ⟨⟨hrun, hp⟩, hn⟩ := hpk
+  simp only [Bool.not_eq_true] at hresp hcl hurr
+  have hfwd : fwdPhase s.phase = true := by simp [hp, fwdPhase]
+  obtain ⟨hpre, hup, _⟩ := phase_excl s.phase hfwd
+  have how : c.oneway = false := by
+    cases ho : c.oneway with
+    | false => rfl
+    | true => exact absurd hp (h.k32 hcl ho).2.1
+  have hsr : s.setupRetry = false := (h.k7 hcl).1
+  have hnd : s.direct = false := not_direct_of_quiet h.k7 hcl hn
+  have hrst : s.respStarted = false := h.k16 hcl hup
+  have h18 := h.k18 hcl hfwd
+  simp only [how, Bool.false_eq_true, false_and, false_or] at h18
+  have hur : s.upReset = false := by
+    cases hh : s.upReset with
+    | false => rfl
+    | true => have := h18.2.2.1 (Or.inr (Or.inl hh)); rw [hn] at this; cases this
+  have hdr : s.downReset = false := by
+    cases hh : s.downReset with
+    | false => rfl
+    | true => have := h18.2.2.1 (Or.inr (Or.inr hh)); rw [hn] at this; cases this
+  have hled := resetUpstream_ledger c aq s ⟨h.k10, h.k11, h.k14⟩
+  obtain ⟨k0, k1, k2, k3, k4, k5, k6, k7, k8, k9, k10, k11, k12, k13, k14, k15, k16, k17, k18, k19, k20, k21, k22, k23, k24, k25, k26, k27, k28, k29, k30, k31, k32, k33⟩ := h
+  refine ⟨?_, ?_, ?_, ?_, ?_, ?_, ?_, ?_, ?_, ?_, hled.1.1, hled.1.2.1, ?_, ?_, hled.1.2.2, ?_, ?_, ?_, ?_, ?_, ?_, ?_,
+    K22_resetUpstream c _ k22, fun _ _ => allDead_liveCount hled.2, ?_, ?_, ?_, ?_, ?_, ?_, ?_, ?_, ?_, ?_⟩
+  · simpa [K0] using k0
+  · simpa [K1] using k1
+  · simpa [K2] using k2
+  · simpa [K3] using k3
+  · simpa [K4] using k4
+  · simpa [K5] using k5
+  · simpa [K6] using k6
+  · intro _
+    refine ⟨by simp [hsr], fun _ => ?_⟩
+    exact ⟨by simp [hp], rfl, rfl, by simp [hur], rfl, allDead_liveCount hled.2, rfl, rfl⟩
+  · simpa [K8] using k8
+  · simpa [K9, heldRetry, rsHeld] using k9
+  · simpa [K12] using k12
+  · intro hh; exact absurd hh (by simp [hcl])
+  · intro _ hh; exact absurd hh (by simp [hup])
+  · simpa [K16] using k16
+  · intro _ hh; exact absurd hh (by simp [hpre])
+  · intro _ _
+    right
+    refine ⟨by simpa using h18.1, by simpa using h18.2.1, fun _ => rfl, ?_, fun _ _ => Or.inr (Or.inr rfl), ?_⟩
+    · intro hh; exact h18.2.2.2.1 (by simpa using hh) ▸ rfl
+    · intro _; have := h18.2.2.2.2.2 hp; simp only [or_false] at this; left; simpa using this
+  · simpa [K19] using k19
+  · intro hh; exact absurd hh (by simp [how])
+  · intro hh; exact absurd hh (by simp [how])
+  · intro _ _ _ _; right; right; rfl
+  · simpa [K25] using k25
+  · intro _ hh; exact absurd hh (by simp [hp])
+  · intro _ _ _; right; exact ⟨rfl, allDead_liveCount hled.2⟩
+  · intro _ _; left; rfl
+  · simpa [K29] using k29
+  · intro _ hh; simp [hp] at hh
+  · simpa [K31] using k31
+  · simpa [K32] using k32
+  · intro hh; exact absurd hh (by simp [hcl])
+
 /-- every label of another goroutine preserves the invariant -/
 theorem inv_async (c : Cfg) (ar aq : Nat) (s : S) (l : Label) (hl : l ≠ .work) (h : Inv c ar aq s) :
     Inv c ar aq (step c s l) := by
@@ -406,5 +493,6 @@ theorem inv_async (c : Cfg) (ar aq : Nat) (s : S) (l : Label) (hl : l ≠ .work)
   | globalFire => exact inv_globalFire c ar aq s h
   | downReset r => exact inv_downReset c ar aq s r h
   | connClose => exact inv_connClose c ar aq s h
+  | terminate code => exact inv_terminate c ar aq s code h
 
 end MosnVerif.Model.Downstream
